@@ -171,7 +171,7 @@ func rsaDecryptPKCS1(priv *rsa.PrivateKey, ct []byte) ([]byte, error) {
 		if c.Cmp(priv.N) >= 0 {
 			return nil, errRSA
 		}
-		em := new(big.Int).Exp(c, priv.D, priv.N).FillBytes(make([]byte, k))
+		em := rsaPrivOp(priv, c).FillBytes(make([]byte, k))
 		if em[0] != 0 || em[1] != 2 {
 			return nil, errRSA
 		}
@@ -185,6 +185,44 @@ func rsaDecryptPKCS1(priv *rsa.PrivateKey, ct []byte) ([]byte, error) {
 		out = append(out, em[i+1:]...)
 	}
 	return out, nil
+}
+
+// rsaPrivOp computes c^d mod N with the Chinese remainder theorem (two primes).
+func rsaPrivOp(priv *rsa.PrivateKey, c *big.Int) *big.Int {
+	if len(priv.Primes) != 2 {
+		return new(big.Int).Exp(c, priv.D, priv.N)
+	}
+	p, q := priv.Primes[0], priv.Primes[1]
+	one := big.NewInt(1)
+	dp := new(big.Int).Mod(priv.D, new(big.Int).Sub(p, one))
+	dq := new(big.Int).Mod(priv.D, new(big.Int).Sub(q, one))
+	qinv := new(big.Int).ModInverse(q, p)
+	m1 := new(big.Int).Exp(c, dp, p)
+	m2 := new(big.Int).Exp(c, dq, q)
+	h := new(big.Int).Sub(m1, m2)
+	h.Mul(h, qinv)
+	h.Mod(h, p)
+	return h.Mul(h, q).Add(h, m2)
+}
+
+// rsaMemo remembers the last decryption (consecutive mutations of one base mostly carry the
+// same secret); one per worker job, never shared.
+type rsaMemo struct {
+	fp, ct string
+	plain  []byte
+	err    error
+}
+
+func (m *rsaMemo) decrypt(fp string, priv *rsa.PrivateKey, ct []byte) ([]byte, error) {
+	if m == nil {
+		return rsaDecryptPKCS1(priv, ct)
+	}
+	if m.fp == fp && m.ct == string(ct) {
+		return m.plain, m.err
+	}
+	m.fp, m.ct = fp, string(ct)
+	m.plain, m.err = rsaDecryptPKCS1(priv, ct)
+	return m.plain, m.err
 }
 
 // aesEncryptECB: the client's AES-ECB + PKCS#7 (independent of core/codec).
